@@ -177,7 +177,7 @@ func GenSProgram(t *rapid.T, cfg SGenCfg) SProgram {
 			}
 			p.Ops = append(p.Ops, rc, SOp{K: "add", Node: n},
 				SOp{K: "rebuild", N: int64(rapid.IntRange(0, 3).Draw(t, "wpp")), Seed: rapid.IntRange(1, 5000).Draw(t, "seed"),
-					Str: rapid.SampledFrom([]string{"", "", "", "", "skipfile", "verifyfail", "verifyfail", "nocopy", "nocopy"}).Draw(t, "interrupt"), On: rapid.Bool().Draw(t, "punch"),
+					Str: rapid.SampledFrom([]string{"", "", "", "", "skipfile", "verifyfail", "verifyfail", "nocopy", "nocopy", "writefail", "writefail", "writefail", "writefail"}).Draw(t, "interrupt"), On: rapid.Bool().Draw(t, "punch"),
 					Reps: rapid.IntRange(0, 1).Draw(t, "aligned")})
 		case "sysrebuild":
 			n := rapid.IntRange(0, nodes-1).Draw(t, "node")
